@@ -133,6 +133,33 @@ func runC12(p *Prog, r *Report, tier string) {
 		r.Undecided("R-STOP.select", "anchor: blocking selects in pkg/collector", "pkg/collector", "fewer than 2 blocking selects found")
 	}
 
+	// goroutines that block on the network end only through a Close by their spawner, which must itself observe stop
+	nNet := 0
+	for _, b := range bodies {
+		calls := p.netBlockingCalls(b)
+		if len(calls) == 0 {
+			continue
+		}
+		nNet++
+		Sb := map[string]bool{}
+		for k := range S {
+			Sb[k] = true
+		}
+		for _, in := range b.Blocks[0].Instrs { // not through what this goroutine closes itself
+			if d, ok := in.(*ssa.Defer); ok {
+				if bi, ok := d.Call.Value.(*ssa.Builtin); ok && bi.Name() == "close" {
+					delete(Sb, p.chanIdent(d.Call.Args[0]))
+				}
+			}
+		}
+		r.Check(p.spawnerClosesOnStop(b, Sb), "R-STOP.netread", fnKey(b)+": blocks on the network", p.instrPos(calls[0]),
+			calleeName(callOf(calls[0]))+": the spawning function closes the connection/listener after a wait that observes stop",
+			"this goroutine blocks in a network read that ends only when the connection is closed, and the function that would close it does not wait on a stop-closed channel: Stop() never returns while the peer keeps the connection open", true)
+	}
+	if nNet < 4 {
+		r.Undecided("R-STOP.netread", "anchor: network-reading goroutines of pkg/collector", "pkg/collector", fmt.Sprintf("expected the accept loop, the TCP reader and the two UDP readers, found %d", nNet))
+	}
+
 	// datagram buffers: what is handed to the per-client goroutine must not be overwritten by the next read
 	if hu := p.Fn("(*pkg/collector.CollectingProcess).handleUDPMessage"); hu != nil {
 		for _, cs := range g.callers[hu] {
@@ -188,6 +215,22 @@ func runC12(p *Prog, r *Report, tier string) {
 			_, isCall := cs.(*ssa.Call)
 			r.Check(isCall, "R-OWNER.delivery", fnKey(cs.Parent())+": call of decodePacket", p.instrPos(cs),
 				"synchronous call: messages of one connection are delivered in read order", "decodePacket is started with go/defer: per-connection order is lost", true)
+		}
+		nSend := 0
+		for _, f := range p.RepoFns {
+			if !keyInPkg(fnKey(f), "pkg/collector") {
+				continue
+			}
+			eachInstr(f, func(in ssa.Instruction) {
+				if s, ok := in.(*ssa.Send); ok && p.chanIdent(s.Chan) == "field:pkg/collector.CollectingProcess.messageChan" {
+					nSend++
+					r.Check(f == dp, "R-OWNER.delivery", fnKey(f)+": send on messageChan", p.instrPos(in), "sent by decodePacket itself, before it returns to the reader",
+						"a decoded message is handed to the output channel from another function or goroutine: messages of one connection can overtake each other", true)
+				}
+			})
+		}
+		if nSend == 0 {
+			r.Undecided("R-OWNER.delivery", "anchor: send on messageChan", "pkg/collector", "no send on CollectingProcess.messageChan found")
 		}
 		if len(g.callers[dp]) < 2 {
 			r.Undecided("R-OWNER.delivery", "anchor: callers of decodePacket", "pkg/collector", "expected the TCP reader and the UDP client to call decodePacket")
